@@ -16,8 +16,11 @@ from ..modelinterp import Budget, Interp, Obj, Sym, UNKNOWN, _NONE, Effect
 
 
 def genotype_class(ctx, f: FunctionInfo):
-    full = ctx.prog.resolve_name(f.module, "Genotype")
-    return ctx.prog.classes.get(full) if full else None
+    for mod in ([f.cls.module] if f.cls is not None else []) + [f.module]:
+        full = ctx.prog.resolve_name(mod, "Genotype")
+        if full and full in ctx.prog.classes:
+            return ctx.prog.classes[full]
+    return None
 
 
 def _deep(v: Any, memo: Optional[dict] = None) -> Any:
